@@ -320,6 +320,9 @@ def replay(path):
 
     def tup(x):
         return tuple(tup(i) for i in x) if isinstance(x, list) else x
+    if d['replay'].get('kind') == 'crosshair':
+        from xhair import replay_file
+        return replay_file(path)
     if d['replay'].get('kind') == 'C11conv':
         import C11_conv
         return C11_conv.replay(d['replay'])
@@ -397,6 +400,9 @@ def main():
         stats[k] += conv_stats.get(k, 0)
     nq += conv_stats.get('queries', 0)
     run.extra['conversion_paths_explored'] = conv_stats.get('paths', 0)
+    # concrete companion (sampling): parameters_sdcorr runs a symengine substitution and cannot take z3 terms
+    from xhair import Ob, run_probes
+    run_probes(run, [(Ob('sdcorr', 'C11_sdcorr.py', 'sdcorr', env={}), 'sdcorr()')])
     run.functions = ['internals.math.cov2corr', 'internals.math.corr2cov', 'modeling.calculate_se_from_cov',
                      'calculate_se_from_prec', 'calculate_corr_from_cov', 'calculate_corr_from_prec',
                      'calculate_cov_from_corrse', 'calculate_cov_from_prec', 'calculate_prec_from_cov',
